@@ -882,3 +882,174 @@ def option_wiring_lint(ctx, rule, names, only=None):
     if found < len(set(names)):
         raise AnalysisError('option wiring: construction sites of %s not all found (%d)' % (sorted(names), found))
     return found
+
+
+def proxy_pool_identity_rule(ctx, rule):
+    """HTTPProxyConnectionPool hands out the TLS wrapper of a tunnelled connection and keeps `wrapper -> pooled connection` in a map
+    that release() / no_wait_release() look the handed-out object up in.  (a) Every store into that map is keyed by the object the
+    same branch returns, its value the connection that came from the pool - otherwise release() finds nothing, hands the wrapper
+    itself to the base pool and the real connection stays checked out.  (b) A connection obtained for one target is filed in the
+    base pool under that target's (host, port, ssl): keyed by the proxy's address, an idle CONNECT tunnel to one host is handed
+    out for another and that host's request (with its credentials) is written into it."""
+    import ast
+    from .. import util as U
+    from ..index import norm_text, walk_no_nested
+    repo, ck = ctx.repo, ctx.check
+    ap = repo.func('wpull.proxy.client:HTTPProxyConnectionPool.acquire_proxy')
+    pm = U.parents(ap.node)
+    defs = U.local_defs(ap.node)
+    pooled = {n for n, ds in defs.items() for v, k, st in ds if v is not None and any(
+        isinstance(c, ast.Call) and U.attr_name(c) == 'acquire' and 'super()' in norm_text(c.func) for c in ast.walk(v))}
+    rel = [repo.func('wpull.proxy.client:HTTPProxyConnectionPool.' + n) for n in ('release', 'no_wait_release')]
+    maps = set()
+    for f in rel:
+        for c in U.calls(f.node):
+            if U.attr_name(c) in ('pop', 'get') and U.is_self_attr(c.func.value):
+                maps.add(c.func.value.attr)
+    if len(maps) != 1:
+        raise AnalysisError('HTTPProxyConnectionPool: the map release() consults was not found')
+    mp = maps.pop()
+    n = 0
+    for st in walk_no_nested(ap.node):
+        if isinstance(st, ast.Assign) and len(st.targets) == 1 and isinstance(st.targets[0], ast.Subscript) and U.is_self_attr(st.targets[0].value, mp):
+            n += 1
+            key, val = st.targets[0].slice, st.value
+            blk = None
+            par = pm.get(id(st))
+            for fld in ('body', 'orelse', 'finalbody'):
+                b = getattr(par, fld, None)
+                if isinstance(b, list) and st in b:
+                    blk = b
+            rets = [x for x in (blk or []) if isinstance(x, ast.Return) and x.lineno > st.lineno]
+            ok = bool(rets) and isinstance(key, ast.Name) and norm_text(rets[0].value) == key.id and isinstance(val, ast.Name) and val.id in pooled
+            ck.expect(ok, rule, ap.qual, 'self.%s[<what is handed out>] = <the pooled connection>' % mp,
+                      '`%s`: the map release() looks the handed-out object up in is not keyed by the object this branch returns (or does not '
+                      'hold the pooled connection): the give-back misses, the wrapper goes to the base pool and the real connection stays '
+                      'checked out' % norm_text(st)[:70], ap.loc(st))
+    if n < 2:
+        raise AnalysisError('acquire_proxy: expected the two stores into the wrapper map (found %d)' % n)
+    # (b) host key
+    params = ap.params[1:4]
+    hk = [st for st in walk_no_nested(ap.node) if isinstance(st, ast.Assign) and any(isinstance(t, ast.Name) and t.id == 'host_key' for t in st.targets)]
+    okk = bool(hk)
+    for st in hk:
+        v = st.value
+        last = v.values[-1] if isinstance(v, ast.BoolOp) and isinstance(v.op, ast.Or) else v
+        okk = okk and isinstance(last, ast.Tuple) and [norm_text(e) for e in last.elts] == list(params)
+    uses = [c for c in U.calls(ap.node) if U.attr_name(c) == 'acquire' and 'super()' in norm_text(c.func)]
+    passed = all(any(k.arg == 'host_key' and norm_text(k.value) == 'host_key' for k in c.keywords) or (len(c.args) >= 4 and norm_text(c.args[3]) == 'host_key') for c in uses)
+    ck.expect(okk and passed and bool(uses), rule, ap.qual, 'a proxied connection is pooled under its target (%s)' % ', '.join(params),
+              'the key a proxied connection is pooled under does not name the target host, port and TLS flag: an idle tunnel to one host is '
+              'handed out for another host, whose request - Host, Authorization, cookies - is written into it', ap.loc(hk[0]) if hk else ap.loc())
+    return n
+
+
+def revisit_lookup_rule(ctx, rule):
+    """The digest an earlier visit is looked up with must be a digest (see the comment at the call)."""
+    import ast
+    from .. import util as U
+    repo, ck = ctx.repo, ctx.check
+    rv = repo.func('wpull.warc.recorder:HTTPWARCRecorderSession._record_revisit')
+    # --- the digest the earlier visit is looked up with is a digest: when the record has none (--no-warc-digests) the value passed
+    #     must not be the placeholder the CDX writer puts into the digest column (read back by --warc-dedup), or every URL of such
+    #     a CDX "matches" and its response is replaced by a header-only revisit record
+    placeholders = set()
+    for fn_ in repo.funcs.values():
+        if fn_.module.name == 'wpull.warc.recorder' and fn_.name == '_write_cdx_field':
+            for x in ast.walk(fn_.node):
+                if isinstance(x, ast.BoolOp) and isinstance(x.op, ast.Or) and isinstance(x.values[-1], ast.Constant) and isinstance(x.values[-1].value, str):
+                    placeholders.add(x.values[-1].value)
+                if isinstance(x, ast.Assign) and isinstance(x.value, ast.Constant) and isinstance(x.value.value, str) and len(x.value.value) <= 2:
+                    placeholders.add(x.value.value)
+    for c in [c for c in U.calls(rv.node) if U.attr_name(c) == 'get_revisit_id']:
+        dflt = None
+        for x in ast.walk(c):
+            if isinstance(x, ast.Call) and U.attr_name(x) == 'get' and x.args and isinstance(x.args[0], ast.Constant) and x.args[0].value == 'WARC-Payload-Digest':
+                dflt = x.args[1] if len(x.args) > 1 else ast.Constant(value=None)
+        if dflt is None:
+            continue
+        v_ = dflt.value if isinstance(dflt, ast.Constant) else '?'
+        ck.expect(v_ not in placeholders, rule, rv.qual, 'the revisit lookup does not use the CDX placeholder for "no digest"',
+                  'without a payload digest the earlier visit is looked up with %r, which is what the CDX writer stores for "no digest": with '
+                  '--no-warc-digests and --warc-dedup every known URL matches and its new response is cut down to a revisit record' % (v_,), rv.loc(c))
+
+
+def surrogate_to_strict_encode_lint(ctx, rule, prefixes=('wpull.',)):
+    """Text decoded (or unquoted) with errors='surrogateescape' carries lone surrogates for every byte that was not valid in the
+    codec; a strict .encode() of such text raises UnicodeEncodeError.  Whoever decodes that way keeps the text away from strict
+    encoders: the local it is bound to (or the elements of the list built from it) does not reach `.encode(codec)` without an
+    errors= argument, directly or as the argument of a repository function whose parameter does (three calls deep)."""
+    import ast
+    from .. import util as U
+    from ..index import norm_text, walk_no_nested, dotted
+    repo, ck, res = ctx.repo, ctx.check, ctx.res
+
+    def producer(e):
+        if isinstance(e, ast.Call):
+            for k in e.keywords:
+                if k.arg == 'errors' and isinstance(k.value, ast.Constant) and k.value.value == 'surrogateescape' \
+                        and (U.attr_name(e) in ('decode', 'unquote', 'unquote_plus') or (dotted(e.func) or '').endswith(('unquote', 'unquote_plus'))):
+                    return True
+            if (dotted(e.func) or '') == 'os.fsdecode':
+                return True
+        if isinstance(e, (ast.ListComp, ast.GeneratorExp, ast.SetComp)):
+            return producer(e.elt)
+        return False
+
+    cache = {}
+
+    def strict_sink(fn, name, depth=0):
+        """name (a local / parameter of fn) reaches a strict encode"""
+        key = (fn.qual, name)
+        if key in cache:
+            return cache[key]
+        cache[key] = None
+        out = None
+        aliases = {name}
+        changed = True
+        while changed:
+            changed = False
+            for st in walk_no_nested(fn.node):
+                if isinstance(st, (ast.For, ast.comprehension)) and isinstance(st.iter, ast.Name) and st.iter.id in aliases and isinstance(st.target, ast.Name) \
+                        and st.target.id not in aliases:
+                    aliases.add(st.target.id)
+                    changed = True
+                if isinstance(st, ast.Assign) and isinstance(st.value, ast.Name) and st.value.id in aliases:
+                    for t in st.targets:
+                        if isinstance(t, ast.Name) and t.id not in aliases:
+                            aliases.add(t.id)
+                            changed = True
+        for c in U.calls(fn.node):
+            if isinstance(c.func, ast.Attribute) and c.func.attr == 'encode' and isinstance(c.func.value, ast.Name) and c.func.value.id in aliases:
+                errs = next((k.value for k in c.keywords if k.arg == 'errors'), c.args[1] if len(c.args) > 1 else None)
+                if errs is None or (isinstance(errs, ast.Constant) and errs.value == 'strict'):
+                    out = '%s [%s]' % (norm_text(c)[:50], fn.loc(c))
+                    break
+            if depth < 3:
+                for i, a in enumerate(c.args):
+                    if isinstance(a, ast.Name) and a.id in aliases:
+                        for g in res.callee_funcs(fn, c, allow_name=True, count=False):
+                            gp = [p_ for p_ in g.params if p_ not in ('self', 'cls')]
+                            if i < len(gp):
+                                sub = strict_sink(g, gp[i], depth + 1)
+                                if sub:
+                                    out = '%s -> %s' % (norm_text(c)[:40], sub)
+                if out:
+                    break
+        cache[key] = out
+        return out
+    n = 0
+    for f in repo.funcs.values():
+        mn = f.module.name
+        if not mn.startswith(tuple(prefixes)) or mn.endswith('_test') or mn.startswith(('wpull.thirdparty', 'wpull.testing')):
+            continue
+        for st in walk_no_nested(f.node):
+            if isinstance(st, ast.Assign) and any(producer(x) for x in ast.walk(st.value)):
+                for t in st.targets:
+                    if isinstance(t, ast.Name):
+                        n += 1
+                        why = strict_sink(f, t.id)
+                        ck.expect(not why, rule, f.qual, '%s (decoded with surrogateescape) stays away from strict encoders' % t.id,
+                                  '`%s` may hold lone surrogates (bytes that are not valid in the codec) and reaches %s: UnicodeEncodeError, which is no '
+                                  'per-URL error, for a name or line a server chose' % (t.id, why), f.loc(st))
+    return n
